@@ -32,6 +32,9 @@ TaskErrors(r, t) ==
           {<<"ResultDiffersFromSolo", t, k, a.results[k].r, s.results[k].r>> :
               k \in {k \in 1..Len(a.results) :
                        /\ a.results[k] # s.results[k]
+                       \* an operation given up on purpose has no result: where the solo run gave it up, the shared
+                       \* run may also have found no slot for it
+                       /\ ~(s.results[k].r = "cancelled" /\ IsNoSlot(a.results[k]) /\ r.max_in_flight >= r.slots /\ r.slots < r.ntasks_frames)
                        \* the one failure the property allows: the storage was exhausted
                        /\ ~(IsNoSlot(a.results[k]) /\ r.max_in_flight >= r.slots /\ r.slots < r.ntasks_frames)}})
 
